@@ -54,6 +54,12 @@ def _dt_plan(draw, max_len):
     vals = [draw(_dt_value(unit)) for _ in range(n)]
     if draw(st.integers(0, 9)) == 0:
         vals = [None] * n
+    if n >= 2 and draw(st.integers(0, 19)) == 0:
+        # a long vector (65 .. 2049 elements) repeating the drawn values: beyond any size threshold of a fast path
+        m = draw(st.sampled_from(gen.BIG_SIZES + gen.HUGE_SIZES[:3]))
+        a = draw(st.integers(1, 97))
+        vals = [vals[(i * a + i // 7) % n] for i in range(m)]
+        n = m
     op = draw(st.sampled_from(["extract", "extract", "replace", "to_string", "roundtrip"]))
     plan = {"area": "dt", "unit": unit, "vals": vals, "op": op}
     if op == "extract":
@@ -89,6 +95,11 @@ def _re_plan(draw, max_len):
     n = draw(st.one_of(st.sampled_from([0, 1, 2]), st.integers(0, max_len)))
     vals = [draw(st.one_of(st.sampled_from(STRINGS), st.sampled_from(STRINGS), st.text(alphabet="ab1 é\nX", max_size=5)))
             for _ in range(n)]
+    if n >= 2 and draw(st.integers(0, 19)) == 0:
+        m = draw(st.sampled_from(gen.BIG_SIZES + gen.HUGE_SIZES[:3]))          # a long vector repeating the drawn strings
+        a = draw(st.integers(1, 97))
+        vals = [vals[(i * a + i // 7) % n] for i in range(m)]
+        n = m
     fn = draw(st.sampled_from(["findall", "fullmatch", "match", "search", "split", "sub", "subn"]))
     plan = {"area": "re", "vals": vals, "fn": fn, "pattern": draw(st.sampled_from(PATTERNS)),
             "flags": draw(st.sampled_from([0, 2]))}
